@@ -11,13 +11,14 @@ import RModel.Model.Matcher
   * `hunkGeom`     what `scanner.rs::generate_hunks` derives from (file bytes, match line/column,
                    recorded text, replacement): `line_before = from_utf8_lossy(line)`,
                    `line_after` = column splice on the LOSSY string with the `find` fallback,
-                   `char_offset` = characters that start before the column; `panic` exactly where
-                   `line_string[match_col..]` panics (column inside a character of the lossy string);
+                   `char_offset` = characters that start before the column; since ac203f2 the column is applied
+                   with checked slicing (`get(col..)`), a column that does not fit the lossy string falls
+                   through to the `find` fallback instead of panicking;
   * `diffAfterText`  what `preview/diff.rs::render_diff` feeds to the line differ as the "after"
                    text of one `@@ line n @@` block: `line_after` of the hunk if the line has one
                    hunk, otherwise `line_before` of the FIRST hunk with every hunk spliced in, in
                    descending `byte_offset` order (stable sort), each splice guarded by
-                   `col < len && after[col..].starts_with(content)` and silently skipped otherwise;
+                   `after.get(col..)` being non-empty and starting with `content`, silently skipped otherwise;
   * `planLiteral`  `scanner.rs::process_file_content` in literal mode: `str::lines()` of the lossy
                    file text, repeated `find` per line; `start/end` relative to the line unless the
                    generated flag says the line offset is added.
@@ -37,10 +38,12 @@ def linesWT : Bytes → List Bytes
 /-- the `n`-th line (1-based) including its terminator -/
 def lineOf (content : Bytes) (n : Nat) : Option Bytes := (linesWT content)[n - 1]?
 
-/-- `i < s.len() && s[i..].starts_with(p)`; `none` = panic (slice index inside a character) -/
+/-- `s.get(i..).is_some_and(|tail| !tail.is_empty() && tail.starts_with(p))` (checked slicing since ac203f2: a
+    column past the end or inside a character is simply "no"; before that commit the code sliced with `s[i..]` and
+    panicked inside a character).  The result type keeps `none` = panic so that "no panic" stays a statement. -/
 def startsWithAt (s : Bytes) (i : Nat) (p : Bytes) : Option Bool :=
   if i < s.length then
-    if isCharBoundary s i then some (p.isPrefixOf (s.drop i)) else none
+    if isCharBoundary s i then some (p.isPrefixOf (s.drop i)) else some false
   else some false
 
 def spliceAt (s : Bytes) (i n : Nat) (r : Bytes) : Bytes := s.take i ++ r ++ s.drop (i + n)
@@ -184,5 +187,84 @@ def bump (v : Bytes) : List (Bytes × Nat) → List (Bytes × Nat)
 def byVariant (vs : List Bytes) : List (Bytes × Nat) := vs.foldl (fun acc v => bump v acc) []
 
 def totalOf (t : List (Bytes × Nat)) : Nat := (t.map (·.2)).sum
+
+end Hunks
+
+namespace Hunks
+
+-- several search roots ----------------------------------------------------------------------------
+/-
+  `scan_repository_multi` / `create_simple_plan` walk all roots with one walker; with nested or repeated
+  roots the walker yields a file once per root that reaches it.  Since 4d2e5a7 both planners keep a
+  `HashSet` of canonical locations and skip an entry whose location was seen before
+  (`if !seen_files.insert(canonicalize(path)) { continue }`).  An entry is (canonical path, content).
+-/
+def dedupAux {α} (seen : List Bytes) : List (Bytes × α) → List (Bytes × α)
+  | [] => []
+  | e :: es => if e.1 ∈ seen then dedupAux seen es else e :: dedupAux (e.1 :: seen) es
+
+def dedupEntries {α} (es : List (Bytes × α)) : List (Bytes × α) := dedupAux [] es
+
+/-- the hunks of a multi-root scan, each with the file it belongs to -/
+def planRoots (vs : List Bytes) (entries : List (Bytes × Bytes)) : List (Bytes × Matcher.Match) :=
+  (dedupEntries entries).flatMap (fun e => (Matcher.findMatches vs e.2).map (fun m => (e.1, m)))
+
+/-- the same without the de-duplication (the planners before 4d2e5a7) -/
+def planRootsNoDedup (vs : List Bytes) (entries : List (Bytes × Bytes)) : List (Bytes × Matcher.Match) :=
+  entries.flatMap (fun e => (Matcher.findMatches vs e.2).map (fun m => (e.1, m)))
+
+end Hunks
+
+namespace Hunks
+open Edits
+
+-- the code before ac203f2 (unchecked slices), kept for the before-fix theorems ------------------------------------
+/-- `i < s.len() && s[i..].starts_with(p)`: `none` = panic (slice index inside a character) -/
+def startsWithAtOld (s : Bytes) (i : Nat) (p : Bytes) : Option Bool :=
+  if i < s.length then
+    if isCharBoundary s i then some (p.isPrefixOf (s.drop i)) else none
+  else some false
+
+def lineAfterOld (ls : Bytes) (col : Nat) (text repl : Bytes) : Option (Bytes × How) :=
+  match startsWithAtOld ls col text with
+  | none => none
+  | some true => some (spliceAt ls col text.length repl, .splice)
+  | some false =>
+    match B.find ls text with
+    | some p => some (spliceAt ls p text.length repl, .fallback)
+    | none => some (ls, .unchanged)
+
+/-- `generate_hunks` geometry before ac203f2: panics when the raw column falls inside a character of the lossy line -/
+def hunkGeomAtOld (content : Bytes) (start stop : Nat) (text repl : Bytes) : Geom :=
+  let line := Matcher.lineNo content start
+  let col := start - Matcher.lineStart content start
+  match lineOf content line with
+  | none => .skip
+  | some l =>
+    let ls := Utf8.lossy l
+    match lineAfterOld ls col text repl with
+    | none => .panic
+    | some (la, how) =>
+      .ok { line := line, byteOffset := col, charOffset := charOffset ls col, start := start, stop := stop,
+            content := text, replace := repl, lineBefore := ls, lineAfter := la } how
+
+def mergeStepOld (after : Bytes) (h : Hunk) : Option Bytes :=
+  match startsWithAtOld after h.byteOffset h.content with
+  | none => none
+  | some true => replaceRange after h.byteOffset (h.byteOffset + h.content.length) h.replace
+  | some false => some after
+
+def mergeRunOld : Bytes → List Hunk → Option Bytes
+  | a, [] => some a
+  | a, h :: hs =>
+    match mergeStepOld a h with
+    | none => none
+    | some a' => mergeRunOld a' hs
+
+/-- `render_diff`'s "after" text before ac203f2; `none` = panic -/
+def diffAfterTextOld : List Hunk → Option Bytes
+  | [] => some []
+  | [h] => some h.lineAfter
+  | h :: hs => mergeRunOld h.lineBefore (sortDesc (h :: hs))
 
 end Hunks
